@@ -310,7 +310,7 @@ var jsonLiterals = []string{
 }
 
 func drawJSONPayload(t *rapid.T) (payload []byte, sub string) {
-	switch rapid.IntRange(0, 4).Draw(t, "jsonpayload") {
+	switch rapid.SampledFrom([]int{3, 3, 3, 0, 1, 3, 0, 1, 3, 2}).Draw(t, "jsonpayload") {
 	case 0:
 		return []byte(rapid.SampledFrom(jsonLiterals).Draw(t, "jlit")), "json_literal"
 	case 1:
@@ -469,30 +469,30 @@ func unhex(s string) []byte {
 // hand-written CBOR items: minimal shapes, malformed and hostile encodings
 var cborLiterals = [][]byte{
 	unhex(""), unhex("f6"), unhex("f7"), unhex("a0"), unhex("80"), unhex("00"), unhex("60"), unhex("40"),
-	unhex("a1 6174 80"),             // {"t":[]}
-	unhex("a1 6174 81 a0"),          // {"t":[{}]}
-	unhex("a1 6174 f6"),             // {"t":null}
-	unhex("a1 6174 81 f6"),          // {"t":[null]}
-	unhex("a1 6174 a0"),             // {"t":{}}
-	unhex("a1 6174 81 a2 6169 40 6170 80"), // {"t":[{"i":h'',"p":[]}]}
-	unhex("a1 6174 81 a1 6170 81 a0"),      // {"t":[{"p":[{}]}]}
-	unhex("a1 6174 81 a1 6170 81 a1 6164 a0"), // {"t":[{"p":[{"d":{}}]}]}
-	unhex("a1 6174 81 a1 6170 81 a1 6164 f6"), // d: null
-	unhex("a1 6174 81 a1 6170 81 a1 6161 20"), // a: -1
-	unhex("a1 6174 81 a1 6170 81 a1 6161 fb3ff8000000000000"),       // a: 1.5
-	unhex("a1 6174 81 a1 6170 81 a1 6161 c249010000000000000000"),   // a: 2^64 bignum
-	unhex("a1 6174 81 a1 6170 81 a1 6161 1bffffffffffffffff"),       // a: 2^64-1
-	unhex("a1 6174 81 a1 6169 6178"),    // i: "x" (text instead of bytes)
-	unhex("a1 6174 81 a1 6169 820102"),  // i: [1,2]
-	unhex("a1 6174 81 a1 6169 8219ffff20"), // i: [65535,-1]
-	unhex("a1 6154 80"),                 // {"T":[]}
-	unhex("a2 6174 80 6174 81a0"),       // duplicate key
-	unhex("a1 00 80"),                   // {0:[]}
-	unhex("a1 616d 62c328"),             // m: invalid UTF-8
-	unhex("a1 616d 7f 6161 6162 ff"),    // m: indefinite-length text
-	unhex("84 80 60 60 60"),             // array instead of map
-	unhex("a000"),                       // trailing data
-	unhex("d9d9f7 a0"),                  // self-described CBOR tag
+	unhex("a1 6174 80"),                                           // {"t":[]}
+	unhex("a1 6174 81 a0"),                                        // {"t":[{}]}
+	unhex("a1 6174 f6"),                                           // {"t":null}
+	unhex("a1 6174 81 f6"),                                        // {"t":[null]}
+	unhex("a1 6174 a0"),                                           // {"t":{}}
+	unhex("a1 6174 81 a2 6169 40 6170 80"),                        // {"t":[{"i":h'',"p":[]}]}
+	unhex("a1 6174 81 a1 6170 81 a0"),                             // {"t":[{"p":[{}]}]}
+	unhex("a1 6174 81 a1 6170 81 a1 6164 a0"),                     // {"t":[{"p":[{"d":{}}]}]}
+	unhex("a1 6174 81 a1 6170 81 a1 6164 f6"),                     // d: null
+	unhex("a1 6174 81 a1 6170 81 a1 6161 20"),                     // a: -1
+	unhex("a1 6174 81 a1 6170 81 a1 6161 fb3ff8000000000000"),     // a: 1.5
+	unhex("a1 6174 81 a1 6170 81 a1 6161 c249010000000000000000"), // a: 2^64 bignum
+	unhex("a1 6174 81 a1 6170 81 a1 6161 1bffffffffffffffff"),     // a: 2^64-1
+	unhex("a1 6174 81 a1 6169 6178"),                              // i: "x" (text instead of bytes)
+	unhex("a1 6174 81 a1 6169 820102"),                            // i: [1,2]
+	unhex("a1 6174 81 a1 6169 8219ffff20"),                        // i: [65535,-1]
+	unhex("a1 6154 80"),                                           // {"T":[]}
+	unhex("a2 6174 80 6174 81a0"),                                 // duplicate key
+	unhex("a1 00 80"),                                             // {0:[]}
+	unhex("a1 616d 62c328"),                                       // m: invalid UTF-8
+	unhex("a1 616d 7f 6161 6162 ff"),                              // m: indefinite-length text
+	unhex("84 80 60 60 60"),                                       // array instead of map
+	unhex("a000"),                                                 // trailing data
+	unhex("d9d9f7 a0"),                                            // self-described CBOR tag
 	unhex("c2 4101"), unhex("c0 6161"),
 	unhex("5bffffffffffffffff"), unhex("7bffffffffffffffff"), unhex("9bffffffffffffffff"), unhex("bbffffffffffffffff"),
 	unhex("5a7fffffff00"), unhex("9a00100000"), unhex("ba00100000"), unhex("a1 6174 9a00100000"), unhex("a1 616d 7a7fffffff"),
@@ -503,7 +503,7 @@ var cborLiterals = [][]byte{
 }
 
 func drawCBORPayload(t *rapid.T) (payload []byte, sub string) {
-	switch rapid.IntRange(0, 5).Draw(t, "cborpayload") {
+	switch rapid.SampledFrom([]int{3, 3, 0, 1, 3, 2, 3, 0, 1, 2}).Draw(t, "cborpayload") {
 	case 0:
 		return rapid.SampledFrom(cborLiterals).Draw(t, "clit"), "cbor_literal"
 	case 1:
@@ -585,9 +585,12 @@ var shortAlphabet = []rune("cashuABe=-o30g9")
 var wrongPrefixes = []string{"", "cashu", "cashuC", "cashua", "cashub", "CASHUA", "CASHUB", " cashuA", " cashuB", "cashuA ", "cashuB\n",
 	"cashu:", "cashuAcashuA", "cashuBcashuB", "cashuAcashuB", "web+cashu://cashuA", "cashu:cashuB", "https://wallet.cashu.me/?token=cashuA", "Cashua", "cashu\uff21", "creqA"}
 
-// genDecoderInput returns the input and the name of the family it came from.
+// weights of the input families (index = case label in drawDecoderInput)
+var inputKindWeights = []int{10, 8, 10, 8, 11, 9, 5, 10, 8, 4, 10, 8, 4, 5, 0, 1, 2, 3, 6, 7, 12, 13}
+
+// drawDecoderInput returns the input and the name of the family it came from.
 func drawDecoderInput(t *rapid.T) (input, kind string) {
-	switch rapid.IntRange(0, 13).Draw(t, "inputkind") {
+	switch rapid.SampledFrom(inputKindWeights).Draw(t, "inputkind") {
 	case 0:
 		return rapid.StringOfN(rapid.RuneFrom(shortAlphabet), 0, 8, -1).Draw(t, "short"), "short_string"
 	case 1: // prefix + 0..4 base64 characters
@@ -677,6 +680,7 @@ func classifyDecoderInput(input, kind string, res totalResult) {
 	}
 	if tn, ok := res.accepted["DecodeToken"]; ok {
 		rec.Class("dec_accepted_as_" + tn)
+		rec.Class("dec_accepted/" + kind)
 		if !strings.HasPrefix(kind, "mutated_valid") {
 			rec.Sample("decoder_accepted_"+tn, map[string]any{"kind": kind, "input": input})
 		}
@@ -752,12 +756,12 @@ func reportAgg(t *testing.T, agg map[string]*sigAgg) {
 	}
 }
 
-// Every string of length 0..7 (quick: 0..6) over an alphabet containing the characters of both prefixes.
+// Every string of length 0..7 (thorough: 0..8) over an alphabet containing the characters of both prefixes.
 func TestDecodeShortExhaustive(t *testing.T) {
 	const alphabet = "cashuABe=-"
-	maxLen := 6
+	maxLen := 7
 	if os.Getenv("VERIF_TIER") == "thorough" {
-		maxLen = 7
+		maxLen = 8
 	}
 	agg := map[string]*sigAgg{}
 	n := enumerate(alphabet, maxLen, []string{""}, agg)
